@@ -209,3 +209,132 @@ def opt_selected(ctx, body, ob):
     if others:
         return False, "RData::Empty also constructed in %s" % others
     return True, "selected by type_code()==OPT; type_code gives OPT only for RData::OPT; Empty is built only on the type!=OPT edge"
+
+
+def _family(ctx, body):
+    root_id = body.root if body.kind in ("Closure",) else body.id
+    # async fn: the coroutine is a closure under the fn; select! adds nested closures
+    top = ctx.prog.bodies.get(root_id, body)
+    return [b for b in ctx.prog.bodies.values() if b.id == top.id or b.id.startswith(top.id + "::")]
+
+
+def _places_equal(a, b):
+    return a["l"] == b["l"] and a["p"] == b["p"]
+
+
+def _u8_array_len(b, tix, depth=0):
+    t = b.ty(tix)
+    while t["k"] in ("ref", "ptr") and depth < 4:
+        t = b.ty(t["t"])
+        depth += 1
+    if t["k"] == "array" and b.ty(t["t"])["s"] == "u8":
+        return t["n"]
+    return None
+
+
+@predicate("recv_count_indexes_recv_buffer")
+def recv_count(ctx, body, ob):
+    """`buf[..count]` where (count, addr) is the Ok payload of recv_from(&mut buf): recv_from never reports more
+    bytes than the buffer holds.  Checked structurally: the index flows, through moves and field projections only,
+    from a value of type (usize, SocketAddr); every recv_from in the function (and its closures) receives a buffer
+    backed by a [u8; N] array of the same N as the indexed array; no (usize, SocketAddr) tuple is built by hand."""
+    t = body.blocks[ob.bi]["term"]
+    if t["t"] != "call" or len(t["args"]) != 2:
+        return False, "site is not an index call"
+    n_idx = _u8_array_len(body, t["args"][0]["pl"]["t"]) if t["args"][0]["o"] in ("copy", "move") else None
+    if n_idx is None:
+        return False, "indexed value is not a [u8; N] array"
+    # the range operand: RangeTo { count }
+    defs = mu.defs_of(body)
+    rl = mu.op_local(t["args"][1])
+    rd = mu.single_def(defs, rl) if rl is not None else None
+    if rd is None or rd[1] == "term" or rd[2].get("k") != "agg" or not rd[2].get("adt", "").endswith("RangeTo"):
+        return False, "index is not `..count`"
+    cur_op = rd[2]["ops"][0]
+    ok_src = False
+    for _ in range(12):
+        if cur_op["o"] not in ("copy", "move"):
+            break
+        pl = cur_op["pl"]
+        if body.ty(pl["t"])["s"] != "usize":
+            break
+        if pl["p"]:
+            # field projection: which aggregate does it come out of?
+            base_t = body.local_ty(pl["l"])["s"] if len(pl["p"]) == 1 else None
+            last = pl["p"][-1]
+            if isinstance(last, dict) and last.get("f") == 0 and len(pl["p"]) == 1 and base_t == "(usize, std::net::SocketAddr)":
+                ok_src = True
+                break
+            # a saved local of the coroutine: find the assignments to the same place
+            srcs = []
+            for b2 in [body]:
+                for bl in b2.blocks:
+                    if bl["cleanup"]:
+                        continue
+                    for s in bl["stmts"]:
+                        if s["s"] == "assign" and _places_equal(s["pl"], pl):
+                            srcs.append(s["rv"])
+            if len(srcs) != 1 or srcs[0]["k"] != "use":
+                break
+            cur_op = srcs[0]["op"]
+            continue
+        d = mu.single_def(defs, pl["l"])
+        if d is None or d[1] == "term" or d[2].get("k") != "use":
+            break
+        cur_op = d[2]["op"]
+    if not ok_src:
+        return False, "count does not come (by moves only) from the first field of a (usize, SocketAddr) value"
+    fam = _family(ctx, body)
+    n_recv = 0
+    for b2 in fam:
+        for bl in b2.blocks:
+            if bl["cleanup"]:
+                continue
+            for s in bl["stmts"]:
+                if s["s"] == "assign" and s["rv"]["k"] == "agg" and s["rv"]["ak"] == "tuple" and \
+                        b2.ty(s["pl"]["t"])["s"] == "(usize, std::net::SocketAddr)":
+                    return False, "a (usize, SocketAddr) tuple is constructed by hand in %s" % b2.qname
+        d2 = mu.defs_of(b2)
+        for bi2, t2 in mu.calls(b2, r"::UdpSocket::(recv_from|recv|peek_from)$"):
+            n_recv += 1
+            # buffer argument -> array type
+            a = t2["args"][1]
+            n_buf = None
+            cur = mu.op_local(a)
+            for _ in range(8):
+                if cur is None:
+                    break
+                dd = mu.single_def(d2, cur)
+                if dd is None:
+                    break
+                if dd[1] == "term":
+                    # &mut buf[..]  (IndexMut on the array)
+                    tt = dd[2]
+                    if tt["callee"] and "IndexMut" in tt["callee"]["def"] and tt["args"][0]["o"] in ("copy", "move"):
+                        n_buf = _u8_array_len(b2, tt["args"][0]["pl"]["t"])
+                    break
+                rv = dd[2]
+                if rv["k"] == "cast" and rv["op"]["o"] in ("copy", "move"):
+                    n_buf = _u8_array_len(b2, rv["op"]["pl"]["t"])
+                    if n_buf is not None:
+                        break
+                    cur = mu.op_local(rv["op"])
+                elif rv["k"] == "ref":
+                    n_buf = _u8_array_len(b2, rv["pl"]["t"])
+                    if n_buf is not None and rv["pl"]["p"] and rv["pl"]["p"][-1] == "d" and False:
+                        pass
+                    if n_buf is not None and b2.ty(rv["pl"]["t"])["k"] == "array":
+                        break
+                    n_buf = None
+                    cur = rv["pl"]["l"] if not [p for p in rv["pl"]["p"] if p != "d"] else None
+                elif rv["k"] == "use":
+                    cur = mu.op_local(rv["op"])
+                else:
+                    break
+            if n_buf is None:
+                return False, "cannot identify the buffer passed to recv_from in %s" % b2.qname
+            if n_buf > n_idx:
+                return False, "recv_from fills a %d-byte buffer but a %d-byte array is indexed" % (n_buf, n_idx)
+    if n_recv == 0:
+        return False, "no recv_from call in the function"
+    return True, "count is the byte count of recv_from into a buffer no larger than the indexed [u8; %d] (%d recv_from call(s))" % (n_idx, n_recv)
